@@ -4,7 +4,7 @@
     "same key" is stated as "same pre-image bytes" (no assumption on SHA-256), and
     "different key" is exact up to SHA-256 collisions. *)
 From Coq Require Import List NArith ZArith String Bool Permutation.
-From Memento Require Import Codec.Json Codec.ArgHash Codec.ArgHashProofs Codec.ArgHashInj.
+From Memento Require Import Codec.Json Codec.ArgHash Codec.ArgHashProofs Codec.ArgHashInj Codec.ArgHashCanon.
 Import ListNotations.
 Open Scope N_scope.
 
@@ -99,6 +99,25 @@ Theorem C04_encoding_injective_partial : forall a b,
   tagfree a = true -> tagfree b = true -> enc a = enc b -> a = b.
 Proof. intros a b Ha Hb E. exact (enc_injective a b Ha Hb E). Qed.
 Print Assumptions C04_encoding_injective_partial.
+
+(** "if and only if", at the level of the JSON value that is rendered and hashed: two normalized
+    values (any type, any depth) have the same normalized JSON value EXACTLY when their canonical
+    forms (dictionary members in key order at every depth) coincide — the key forgets the order
+    of dictionary members and nothing else; for the effective keyword arguments of two calls:
+    same hashed value iff the same canonical values are bound to the same names. PARTIAL as above:
+    the text rendering of that JSON value and SHA-256 are outside the theorem *)
+Theorem C04_same_hashed_value_iff_same_canonical_value_partial : forall a b,
+  tagfree a = true -> tagfree b = true ->
+  (normalize (enc a) = normalize (enc b) <-> canon a = canon b).
+Proof. exact normalized_encoding_iff_canonical. Qed.
+Print Assumptions C04_same_hashed_value_iff_same_canonical_value_partial.
+
+Theorem C04_same_hashed_value_iff_same_binding_partial : forall (eff eff' : kwargs),
+  tagfree (ADict eff) = true -> tagfree (ADict eff') = true ->
+  (normalize (enc (ADict eff)) = normalize (enc (ADict eff'))
+   <-> sort_kv (map (fun kv => (fst kv, canon (snd kv))) eff) = sort_kv (map (fun kv => (fst kv, canon (snd kv))) eff')).
+Proof. exact same_hashed_value_iff_same_binding. Qed.
+Print Assumptions C04_same_hashed_value_iff_same_binding_partial.
 
 (** the restriction to normalized values is needed: a dictionary spelled like the tagged form
     of a date is encoded (and keyed) like that date. The implementation's normalization turns
